@@ -11,7 +11,7 @@ use std::panic::{catch_unwind, AssertUnwindSafe};
 thread_local! {
     static LEDGER: RefCell<Vec<String>> = RefCell::new(Vec::new());
     static NEXT: RefCell<usize> = RefCell::new(0);
-    static PLAN: RefCell<(Option<usize>, bool)> = RefCell::new((None, false));
+    static PLAN: RefCell<(Option<usize>, u8)> = RefCell::new((None, 0));
 }
 
 pub struct Tracked {
@@ -29,12 +29,19 @@ impl BorshDeserialize for Tracked {
             *n += 1;
             v
         });
-        let (fail_at, panic_mode) = PLAN.with(|p| *p.borrow());
+        let (fail_at, mode) = PLAN.with(|p| *p.borrow());
         if fail_at == Some(id) {
-            if panic_mode {
+            if mode == 1 {
                 panic!("planned panic in element decoder");
             }
-            return Err(Error::new(ErrorKind::InvalidData, "planned failure"));
+            // an element decoder may fail with any kind, `Interrupted` included (a user impl that
+            // calls `Read::read` directly); for the array decoder every kind is a failure
+            return Err(match mode {
+                2 => Error::new(ErrorKind::Interrupted, "planned interruption"),
+                3 => ErrorKind::Interrupted.into(),
+                4 => ErrorKind::UnexpectedEof.into(),
+                _ => Error::new(ErrorKind::InvalidData, "planned failure"),
+            });
         }
         LEDGER.with(|l| l.borrow_mut().push(format!("c{}", id)));
         Ok(Tracked { id, _heap: Box::new([b as u64; 4]), _text: format!("element {}", id) })
@@ -47,13 +54,14 @@ impl Drop for Tracked {
     }
 }
 
-fn run<const N: usize>(fail_at: Option<usize>, panic_mode: bool, out: &mut Sink) {
+fn run<const N: usize>(fail_at: Option<usize>, mode: u8, out: &mut Sink) {
+    let mode_name = ["error", "panic", "intr", "intrbare", "eofbare"][mode as usize];
     LEDGER.with(|l| l.borrow_mut().clear());
     NEXT.with(|n| *n.borrow_mut() = 0);
-    PLAN.with(|p| *p.borrow_mut() = (fail_at, panic_mode));
+    PLAN.with(|p| *p.borrow_mut() = (fail_at, mode));
     let data = vec![7u8; N + 2];
     let k0 = fail_at.map(|k| k.to_string()).unwrap_or_else(|| "none".into());
-    out.announce(&format!("guard {} {} {}", N, k0, if panic_mode { "panic" } else { "error" }));
+    out.announce(&format!("guard {} {} {}", N, k0, mode_name));
     let res = catch_unwind(AssertUnwindSafe(|| {
         let mut s = &data[..];
         <[Tracked; N]>::deserialize_reader(&mut s)
@@ -74,7 +82,7 @@ fn run<const N: usize>(fail_at: Option<usize>, panic_mode: bool, out: &mut Sink)
     let mut evs = during.clone();
     evs.extend(after.iter().map(|d| d.replacen('d', "h", 1)));
     let k = fail_at.map(|k| k.to_string()).unwrap_or_else(|| "none".into());
-    let case = format!("guard {} {} {}", N, k, if panic_mode { "panic" } else { "error" });
+    let case = format!("guard {} {} {}", N, k, mode_name);
     out.case(&case, &format!("{} ({})", outcome, evs.join(" ")));
     // the property, directly: every constructed element released exactly once
     let constructed: Vec<&String> = evs.iter().filter(|e| e.starts_with('c')).collect();
@@ -93,10 +101,11 @@ fn run<const N: usize>(fail_at: Option<usize>, panic_mode: bool, out: &mut Sink)
 
 pub fn guard_workload(out: &mut Sink) {
     fn one<const N: usize>(out: &mut Sink) {
-        run::<N>(None, false, out);
+        run::<N>(None, 0, out);
         for k in 0..N {
-            run::<N>(Some(k), false, out);
-            run::<N>(Some(k), true, out);
+            for mode in 0..5u8 {
+                run::<N>(Some(k), mode, out);
+            }
         }
     }
     macro_rules! go { ($($n:literal),*) => { $( one::<$n>(out); )* }; }
